@@ -52,6 +52,9 @@ PROPS = {
     "C16": ("apiwalk", 16, 600, 3600),
 }
 
+# engines whose test binary re-executes exactly one recorded case when VERIF_REPLAY is set
+DIRECT_REPLAY = {"C01", "C02", "C03", "C04", "C08", "C13", "C05", "C06", "C07", "C18", "C15", "C11", "C12"}
+
 LEVEL = "model_checking"
 LEVELS = {"C05": "fault_enumeration", "C17": "fault_enumeration", "C19": "exploration", "C20": "exploration", "C14": "exploration"}
 
@@ -224,6 +227,8 @@ def finish(prop, tier, seed, m, errors, t0, level=LEVEL, assumptions=None, repla
     mutant = bool(os.environ.get("VERIF_MUTANT") or os.environ.get("VERIF_SCRATCH_EVIDENCE"))
     rdir = os.path.join(BUILD, "mutant_replays", prop) if mutant else os.path.join(VERIF, "replays", prop)
     lines = []
+    if mutant:
+        shutil.rmtree(rdir, ignore_errors=True)
     if new_viol:
         os.makedirs(rdir, exist_ok=True)
     first_replay = {}
@@ -363,7 +368,13 @@ def check(prop, tier, replay=None):
         binary = build(engine, overlay=overlay, out=os.path.join(BUILD, engine + ".mutant.test"))
     else:
         binary = build(engine)
-    reports, errors = run_shards(binary, prop, tier, nshards, deadline, seed, replay=replay)
+    extra = None
+    if replay and prop not in DIRECT_REPLAY:
+        # cheap engines: re-run the whole check, keeping only violations of the recorded case
+        extra = {"VERIF_REPLAY_MATCH": os.path.abspath(replay)}
+        reports, errors = run_shards(binary, prop, tier, nshards, deadline, seed, extra_env=extra)
+    else:
+        reports, errors = run_shards(binary, prop, tier, nshards, deadline, seed, replay=replay)
     if prop == "C15" and not replay:
         r, e = race_pass(prop, tier, overlay, tag)
         reports.append(r)
